@@ -106,7 +106,7 @@ TRUNC = z3.Function('py_trunc', z3.RealSort(), z3.IntSort())
 
 
 class Engine(object):
-    def __init__(self, spec, root='/repo', feas_timeout_ms=400):
+    def __init__(self, spec, root='/repo', feas_timeout_ms=int(__import__('os').environ.get('PYVC_FEAS_MS', '400'))):
         self.spec = spec
         self.src = SourceIndex(root)
         self.vcs = []
@@ -116,6 +116,8 @@ class Engine(object):
         self.feas_timeout_ms = feas_timeout_ms
         self._feas_cache = {}
         self._quant_cache = {}
+        self._hint_cache = {}
+        self._rank_cache = {}
         self._heap0 = {}
         self.spec_mode = 0
         self.loop_counter = 0
@@ -171,55 +173,85 @@ class Engine(object):
                 break
         return goal, sk
 
-    def hint_terms(self, pc, goal, skolems, limit=40):
-        if not skolems:
-            return []
+    def scan_formula(self, f):
+        """ground array-sorted subterms and ground applications of spec functions in a formula
+        (cached per formula: path-condition conjuncts are shared by many VCs)"""
+        fid = f.get_id()
+        hit = self._hint_cache.get(fid)
+        if hit is not None:
+            return hit
         seen = set()
         arrays = []
         ufapps = []
-        ufsigs = set()
         varmemo = {}
 
         def has_var(t):
             i = t.get_id()
             if i in varmemo:
                 return varmemo[i]
-            if z3.is_var(t):
-                r = True
-            elif z3.is_quantifier(t):
+            if z3.is_var(t) or z3.is_quantifier(t):
                 r = True
             else:
                 r = any(has_var(c) for c in t.children())
             varmemo[i] = r
             return r
-
-        def walk(t):
-            if t.get_id() in seen:
-                return
-            seen.add(t.get_id())
+        todo = [f]
+        while todo:
+            t = todo.pop()
+            tid = t.get_id()
+            if tid in seen:
+                continue
+            seen.add(tid)
             if z3.is_quantifier(t):
-                walk(t.body())
-                return
-            if z3.is_var(t):
-                return
-            if z3.is_app(t):
-                if t.sort().kind() == z3.Z3_ARRAY_SORT and not has_var(t):
-                    arrays.append(t)
-                if t.num_args() > 0 and t.decl().kind() == z3.Z3_OP_UNINTERPRETED and \
-                        t.decl().name().startswith('u_') and not has_var(t):
-                    sig = (t.decl().name(), tuple(t.arg(k).get_id() for k in range(t.num_args())
-                                                  if t.arg(k).sort() != z3.IntSort()))
-                    if sig not in ufsigs:
-                        ufsigs.add(sig)
-                        ufapps.append(t)
-                for c in t.children():
-                    walk(c)
+                todo.append(t.body())
+                continue
+            if z3.is_var(t) or not z3.is_app(t):
+                continue
+            if t.sort().kind() == z3.Z3_ARRAY_SORT and not has_var(t):
+                arrays.append(t)
+            if t.num_args() > 0 and t.decl().kind() == z3.Z3_OP_UNINTERPRETED and \
+                    t.decl().name().startswith('u_') and not has_var(t):
+                ufapps.append(t)
+            todo.extend(t.children())
+        res = (arrays, ufapps)
+        self._hint_cache[fid] = res
+        return res
+
+    def hint_terms(self, pc, goal, skolems, limit=40):
+        if not skolems:
+            return []
+        arrays = []
+        ufapps = []
+        ufsigs = set()
+        aseen = set()
         for c in list(pc) + [goal]:
-            walk(c)
+            ar, uf = self.scan_formula(c)
+            for a in ar:
+                if a.get_id() not in aseen:
+                    aseen.add(a.get_id())
+                    arrays.append(a)
+            for t in uf:
+                sig = (t.decl().name(), tuple(t.arg(k).get_id() for k in range(t.num_args())
+                                              if t.arg(k).sort() != z3.IntSort()))
+                if sig not in ufsigs:
+                    ufsigs.add(sig)
+                    ufapps.append(t)
         # membership arrays (range Bool) first: they drive set reasoning
-        arrays.sort(key=lambda a: (0 if a.sort().range() == z3.BoolSort() else 1,
-                                   1 if str(a.decl()).startswith('H.') else 0))
+        rc = self._rank_cache
+
+        def rank(a):
+            i = a.get_id()
+            r = rc.get(i)
+            if r is None:
+                r = (0 if a.sort().range() == z3.BoolSort() else 1,
+                     1 if (z3.is_const(a) and a.decl().name().startswith('H.')) else 0)
+                rc[i] = r
+            return r
+        arrays.sort(key=rank)
         hints = []
+        for skc in skolems:
+            hf = z3.Function('hint!%s' % str(skc.sort()).replace(' ', '_'), skc.sort(), z3.BoolSort())
+            hints.append(hf(skc))
         # neighbours: spec functions with an integer argument are also mentioned at sk-1, sk, sk+1
         # (invariants over consecutive indices such as bk(j-1) / bk(j) need these instances)
         if ufapps:
@@ -332,7 +364,14 @@ class Engine(object):
         if isinstance(ty, (TList, TDict, TSet)) and arrs:
             o = z3.Int(fresh_name('o'))
             n = z3.Select(arrs[-1], o)
-            return [FA([o], n >= 0, patterns=[n])]
+            facts = [FA([o], n >= 0, patterns=[n])]
+            if isinstance(ty, (TDict, TSet)):
+                # an empty table has no key (size is the cardinality of the key set)
+                (ks,) = zsorts(ty.k if isinstance(ty, TDict) else ty.elem)
+                k = z3.Const(fresh_name('k'), ks)
+                has = z3.Select(z3.Select(arrs[0], o), k)
+                facts.append(FA([o, k], z3.Implies(n == 0, z3.Not(has)), patterns=[has]))
+            return facts
         return []
 
     def wf_value_facts(self, v):
@@ -373,6 +412,9 @@ class Engine(object):
 
     def write_field(self, st, ref, cls, field, val, node=None):
         arrs, ty, key = self.heap_arrays(st, cls, field, node)
+        if ty == VAL and self.coerce(val, VAL) is None:
+            st, val = self.to_val_deep(st, val)
+            arrs, ty, key = self.heap_arrays(st, cls, field, node)
         val = self.coerce_store(st, val, ty, '%s.%s' % (cls, field), node)
         st = st.copy()
         st.heap[key] = tuple(z3.Store(a, ref, c) for a, c in zip(arrs, val.t))
@@ -383,15 +425,15 @@ class Engine(object):
         """havoc field `key` for the listed objects only: F' = Store(...Store(F, o1, v1)..., on, vn)
         with fresh values (quantifier-free frame)"""
         old = st.heap.get(key) or self.heap0(key, ty)
-        new = []
-        for i, a in enumerate(old):
-            cur = a
-            for o in objs:
-                v = z3.Const(fresh_name('hv.%s.%s.%d' % (key[0], key[1], i)), a.sort().range())
-                cur = z3.Store(cur, o, v)
-                if i == len(old) - 1 and isinstance(ty, (TList, TDict, TSet)):
-                    st = st.assume(v >= 0)
-            new.append(cur)
+        new = [a for a in old]
+        for o in objs:
+            vs = [z3.Const(fresh_name('hv.%s.%s.%d' % (key[0], key[1], i)), a.sort().range())
+                  for i, a in enumerate(old)]
+            new = [z3.Store(cur, o, v) for cur, v in zip(new, vs)]
+            if isinstance(ty, (TList, TDict, TSet)):
+                st = st.assume(vs[-1] >= 0)
+            if isinstance(ty, (TDict, TSet)):
+                st = st.assume(*self.dict_wf(SV(ty, vs)))
         st = st.copy()
         st.heap[key] = tuple(new)
         st.hver += 1
@@ -461,6 +503,11 @@ class Engine(object):
             es = [self.coerce(x, ty.elem) for x in val.py]
             if all(e is not None for e in es):
                 return self.mk_list(ty.elem, es)
+        if isinstance(ty, TTuple) and isinstance(vt, TTuple) and val.py is not None and \
+                len(ty.elems) == len(vt.elems):
+            items = [self.coerce(x, t) for x, t in zip(val.py, ty.elems)]
+            if all(i is not None for i in items):
+                return self.mk_tuple(items)
         if isinstance(ty, TDict) and isinstance(vt, TDict) and vt.k == NONE:
             return self.empty_dict(ty)
         if isinstance(ty, TDict) and isinstance(vt, TDict) and vt.k == ty.k and ty.v == VAL and \
